@@ -3,11 +3,11 @@ import hashlib as _hashlib
 _c27_base = _hashlib.sha256(open(_os.path.join(_os.path.dirname(_os.path.abspath(_f)), 'c27_llbase.hpp'), 'rb').read()).hexdigest()[:16]
 
 target('c27_control', 'engines/ll/c27_control.cpp',
-       quick=dict(cases=6400, size=60), thorough=dict(cases=400000, size=100),
+       quick=dict(cases=8000, size=50), thorough=dict(cases=400000, size=80),
        extra_src=LL_SRC, cxxflags=['-DC27_LLBASE_SHA=0x' + _c27_base],
        # avoid=F-21c: while an instant is pending the central only sends empty PDUs (the deferred control PDU is
        # overwritten by later receptions on a tree without repair sketch 25); remove once F-21c is fixed in /repo
-       opts={'avoid': 'F-21c,F-27a,F-27b,F-27c,F-28b'})
+       opts={'avoid': 'F-21c,F-27b'})
 prop('C27', ['c27_control'], 'll',
      rule='rapidcheck generates a link layer configuration (plain / security + desired parameters / asynchronous parameter '
           'request + signalling channel), connection parameters and a history of LL control PDUs (17 shapes: every request in '
